@@ -109,7 +109,9 @@ pub const FRONT_ADDRS: &[&str] = &[
 ];
 pub const BACKEND_ADDRS: &[&str] = &["10.0.0.1:8080", "10.0.0.2:8080", "[fd00::1]:8080", "10.0.0.1:8081"];
 pub const CLUSTERS: &[&str] = &["c0", "c1", "c2", "c3", "cl\u{fc}ster-4", ""];
-pub const BACKEND_IDS: &[&str] = &["b0", "b1", "b2"];
+// mixed lengths on purpose: any ordering used by the diff merge-join that is not the plain string
+// order of the keys (e.g. "natural" shorter-first ordering) must show up
+pub const BACKEND_IDS: &[&str] = &["b0", "b1", "b2", "b10", "b", "b-2"];
 pub const HOSTS: &[&str] = &["a.x", "b.x", "*.x", "", "\u{dc}n\u{ef}.x"];
 pub const STRINGS: &[&str] = &["x", "SOZUBALANCEID", "a b", "q\"uote\\", "l1\nl2\n\0tail", "\u{e9}\u{4e2d}\u{1f600}", "HTTP/1.1 503 Service Unavailable\r\n\r\n"];
 
